@@ -4,6 +4,7 @@ import (
 	"encoding/hex"
 	"encoding/json"
 	"fmt"
+	"golang.org/x/crypto/sha3"
 	"sort"
 	"strconv"
 	"strings"
@@ -31,6 +32,7 @@ type c07ex struct {
 	c     *world.Chan
 	fresh int
 
+	swapSeq    int
 	forceNonce string // nonce of the next signed request (op future)
 	futureSeq  int64
 }
@@ -308,6 +310,16 @@ func (e *c07ex) Exec(op string) string {
 		}
 		e.nontrivial = true
 		return okErr(e.call(mode, u(0), "transfer", u(1).Addr, a[2], "ref"))
+	case "swapbegin":
+		// a swap begun (escrow taken, the swap announced in the reply of its batch); later requests on
+		// the same instance must answer as a fresh instance does - nothing of this one may linger
+		if len(a) != 2 || u(0) == nil {
+			return "bad-op"
+		}
+		e.nontrivial = true
+		e.swapSeq++
+		hs := sha3.Sum256([]byte(fmt.Sprintf("c07-key-%d", e.swapSeq)))
+		return okErr(e.call(mode, u(0), "swapBegin", "VT", "CC", a[1], hex.EncodeToString(hs[:])))
 	case "future":
 		// a request whose nonce (a client's clock reading in ms) is ahead of this machine's clock by the
 		// given number of ms: acceptance depends on the sender's stored window only, never on the wall
@@ -444,7 +456,9 @@ func genC07(c *Cfg, emit func([]string)) {
 		}
 		for j := 0; j < n; j++ {
 			mode := pick("cb", "ct", "db", "dt", "dt", "db")
-			switch c.Rng.Intn(15) {
+			switch c.Rng.Intn(17) {
+			case 15, 16:
+				h = append(h, mode+" swapbegin "+pick(users...)+" "+pick("1", "7", "100", "100000"))
 			case 14:
 				h = append(h, mode+" future "+pick("0", "30000", "2000000", "7200000", "86400000"))
 			case 12, 13:
@@ -474,7 +488,7 @@ func genC07(c *Cfg, emit func([]string)) {
 		h = append(h, "dt meta", "bal")
 		emit(h)
 	}
-	c.Rule = "random histories of committed and simulated-and-dropped proposals (emit, setFee valid/invalid, setFeeAddress, setRate, transfer, multi-write scripts, multi-transfer requests, queries, requests whose nonce is 0 s .. 1 day ahead of this machine's clock, and 20 kinds of failing requests: malformed / negative / oversized amounts and asset lists of swaps, multi-swaps, transfers and locks, strangers calling issuer methods, failing scripts) on both routes; every proposal is simulated on the long-lived instance, on a fresh instance and again on the long-lived one and the three results are compared byte for byte; non-trivial = contains a setFee or a transfer"
+	c.Rule = "random histories of committed and simulated-and-dropped proposals (emit, setFee valid/invalid, setFeeAddress, setRate, transfer, multi-write scripts, multi-transfer requests, swap begins, queries, requests whose nonce is 0 s .. 1 day ahead of this machine's clock, and 20 kinds of failing requests: malformed / negative / oversized amounts and asset lists of swaps, multi-swaps, transfers and locks, strangers calling issuer methods, failing scripts) on both routes; every proposal is simulated on the long-lived instance, on a fresh instance and again on the long-lived one and the three results are compared byte for byte; non-trivial = contains a setFee or a transfer"
 }
 
 func jsonField(p, field string) string {
